@@ -242,14 +242,14 @@ Proof.
     destruct (is_css e); try discriminate; destruct (x && _); discriminate.
 Qed.
 
-Lemma pick_mono enc force p q :
+Lemma pick_mono enc force p q fin :
   pick_encoding enc force p false = PBuffer \/
-  pick_encoding enc force (p ++ q) true = pick_encoding enc force p false.
+  pick_encoding enc force (p ++ q) fin = pick_encoding enc force p false.
 Proof.
   unfold pick_encoding.
   destruct (match enc with None => true | Some _ => negb force end); [|now right].
   destruct (detect_total p false) as [[[e|] x] Hd]; rewrite Hd; [right|now left].
-  now rewrite (detect_monotone _ q true _ _ Hd).
+  now rewrite (detect_monotone _ q fin _ _ Hd).
 Qed.
 
 (* ================================================================== chunking invariance *)
@@ -299,41 +299,41 @@ Section Facts.
     | Err e => Err e
     end.
 
-  Lemma dec_with_merge st d a b :
-    snd (dec_with st d (a ++ b) true) =
-    seqr (snd (dec_with st d a false)) (snd (dec_step (fst (dec_with st d a false)) b true)).
+  Lemma dec_with_merge st d a b fin :
+    snd (dec_with st d (a ++ b) fin) =
+    seqr (snd (dec_with st d a false)) (snd (dec_step (fst (dec_with st d a false)) b fin)).
   Proof.
     unfold Codec.dec_with. destruct (ds_enc st) as [enc|] eqn:Henc; [|reflexivity].
     destruct (dstep d a false) as [d' [o1|e]] eqn:H1.
-    2:{ pose proof (dstep_error _ _ b true _ _ H1) as E. destruct (dstep d (a ++ b) true) as [d2 r2].
+    2:{ pose proof (dstep_error _ _ b fin _ _ H1) as E. destruct (dstep d (a ++ b) fin) as [d2 r2].
         simpl in E. subst r2. reflexivity. }
-    rewrite (dstep_concat _ _ b true _ _ H1).
+    rewrite (dstep_concat _ _ b fin _ _ H1).
     destruct (ds_fixed st) eqn:Hfx.
     - cbn [fst snd]. unfold Codec.dec_step, Codec.dec_with. cbn [ds_dec ds_enc ds_fixed ds_buf ds_force].
-      try rewrite Henc. destruct (dstep d' b true) as [d2 [o2|e2]]; reflexivity.
+      try rewrite Henc. destruct (dstep d' b fin) as [d2 [o2|e2]]; reflexivity.
     - destruct (fixencoding (ds_buf st ++ o1) (nosig enc) false) as [r1|] eqn:Hf1.
       + cbn [fst snd]. unfold Codec.dec_step, Codec.dec_with. cbn [ds_dec ds_enc ds_fixed ds_buf ds_force].
-        try rewrite Henc. destruct (dstep d' b true) as [d2 [o2|e2]]; cbn [fst snd]; [|reflexivity].
-        rewrite app_assoc. rewrite (fix_monotone _ o2 _ true _ Hf1). reflexivity.
+        try rewrite Henc. destruct (dstep d' b fin) as [d2 [o2|e2]]; cbn [fst snd]; [|reflexivity].
+        rewrite app_assoc. rewrite (fix_monotone _ o2 _ fin _ Hf1). reflexivity.
       + cbn [fst snd]. unfold Codec.dec_step, Codec.dec_with. cbn [ds_dec ds_enc ds_fixed ds_buf ds_force].
-        try rewrite Henc. destruct (dstep d' b true) as [d2 [o2|e2]]; cbn [fst snd]; [|reflexivity].
+        try rewrite Henc. destruct (dstep d' b fin) as [d2 [o2|e2]]; cbn [fst snd]; [|reflexivity].
         rewrite app_assoc.
-        destruct (fix_final_some ((ds_buf st ++ o1) ++ o2) (nosig enc)) as [r Hr]. rewrite Hr. reflexivity.
+        destruct (fixencoding ((ds_buf st ++ o1) ++ o2) (nosig enc) fin); reflexivity.
   Qed.
 
-  Lemma dec_merge st a b :
-    snd (dec_step st (a ++ b) true) =
-    seqr (snd (dec_step st a false)) (snd (dec_step (fst (dec_step st a false)) b true)).
+  Lemma dec_merge st a b fin :
+    snd (dec_step st (a ++ b) fin) =
+    seqr (snd (dec_step st a false)) (snd (dec_step (fst (dec_step st a false)) b fin)).
   Proof.
     unfold Codec.dec_step at 1 2 4. destruct (ds_dec st) as [d|] eqn:Hd; [apply dec_with_merge|].
     rewrite app_assoc.
-    destruct (pick_mono (ds_enc st) (ds_force st) (ds_buf st ++ a) b) as [Hb|Hm].
+    destruct (pick_mono (ds_enc st) (ds_force st) (ds_buf st ++ a) b fin) as [Hb|Hm].
     - rewrite Hb. cbn [fst snd seqr]. unfold Codec.dec_step. cbn [ds_dec ds_enc ds_force ds_buf ds_fixed].
-      destruct (pick_encoding (ds_enc st) (ds_force st) ((ds_buf st ++ a) ++ b) true) as [|e|e]; try reflexivity.
+      destruct (pick_encoding (ds_enc st) (ds_force st) ((ds_buf st ++ a) ++ b) fin) as [|e|e]; try reflexivity.
       destruct (dinit e); [|reflexivity].
       match goal with |- ?x = _ => destruct x end; reflexivity.
     - rewrite Hm. destruct (pick_encoding (ds_enc st) (ds_force st) (ds_buf st ++ a) false) as [|e|e] eqn:Hp.
-      + exfalso. eapply pick_final_not_buffer. exact Hm.
+      + cbn [fst snd seqr]. unfold Codec.dec_step. cbn [ds_dec ds_enc ds_force ds_buf ds_fixed]. rewrite Hm. reflexivity.
       + reflexivity.
       + destruct (dinit e) as [d|]; [|reflexivity]. apply dec_with_merge.
   Qed.
@@ -369,13 +369,13 @@ Section Facts.
   Lemma not_quote_utf8 : ~ In 34%N (nosig utf8).
   Proof. vm_compute. intuition discriminate. Qed.
 
-  Lemma estep_merge e a b :
-    snd (estep e (a ++ b) true) =
-    seqr (snd (estep e a false)) (snd (estep (fst (estep e a false)) b true)).
+  Lemma estep_merge e a b fin :
+    snd (estep e (a ++ b) fin) =
+    seqr (snd (estep e a false)) (snd (estep (fst (estep e a false)) b fin)).
   Proof.
     destruct (estep e a false) as [e' [o1|x]] eqn:H1.
-    - rewrite (estep_concat _ _ b true _ _ H1). cbn [fst snd seqr]. reflexivity.
-    - rewrite (estep_error _ _ b true _ _ H1). reflexivity.
+    - rewrite (estep_concat _ _ b fin _ _ H1). cbn [fst snd seqr]. reflexivity.
+    - rewrite (estep_error _ _ b fin _ _ H1). reflexivity.
   Qed.
 
   (* the tail of enc_step once encoding and (rewritten) input are known *)
@@ -396,18 +396,18 @@ Section Facts.
     destruct (if is_sig enc then fixencoding x utf8 true else Some x); reflexivity.
   Qed.
 
-  Lemma enc_go_merge bufold enc x b :
+  Lemma enc_go_merge bufold enc x b fin :
     (is_sig enc = true -> exists r, fixencoding x utf8 true = Some r /\ fixencoding (x ++ b) utf8 true = Some (r ++ b)) ->
-    snd (enc_go bufold enc (x ++ b) true) =
-    seqr (snd (enc_go bufold enc x false)) (snd (enc_step (fst (enc_go bufold enc x false)) b true)).
+    snd (enc_go bufold enc (x ++ b) fin) =
+    seqr (snd (enc_go bufold enc x false)) (snd (enc_step (fst (enc_go bufold enc x false)) b fin)).
   Proof.
     intros Hsig. unfold enc_go. destruct (is_css enc); [reflexivity|].
     destruct (einit enc) as [e|]; [|reflexivity].
-    assert (G : forall y, snd (estep e (y ++ b) true) =
+    assert (G : forall y, snd (estep e (y ++ b) fin) =
               seqr (snd (estep e y false))
-                   (snd (enc_step (mkE est (Some (fst (estep e y false))) (Some enc) []) b true))).
+                   (snd (enc_step (mkE est (Some (fst (estep e y false))) (Some enc) []) b fin))).
     { intros y. rewrite estep_merge. destruct (estep e y false) as [e' [o1|z]]; cbn [fst snd seqr]; [|reflexivity].
-      unfold Codec.enc_step; cbn [es_enc]. destruct (estep e' b true) as [e2 [o2|z]]; reflexivity. }
+      unfold Codec.enc_step; cbn [es_enc]. destruct (estep e' b fin) as [e2 [o2|z]]; reflexivity. }
     destruct (is_sig enc) eqn:Hs.
     - destruct (Hsig eq_refl) as [r [H1 H2]]. rewrite H1, H2. cbn [fst snd]. apply G.
     - cbn [fst snd]. apply G.
@@ -444,31 +444,31 @@ Section Facts.
         destruct (estep e i true); reflexivity.
   Qed.
 
-  Lemma enc_merge st a b :
-    snd (enc_step st (a ++ b) true) =
-    seqr (snd (enc_step st a false)) (snd (enc_step (fst (enc_step st a false)) b true)).
+  Lemma enc_merge st a b fin :
+    snd (enc_step st (a ++ b) fin) =
+    seqr (snd (enc_step st a false)) (snd (enc_step (fst (enc_step st a false)) b fin)).
   Proof.
     destruct (es_enc st) as [e|] eqn:He.
     - unfold Codec.enc_step at 1 2 4. rewrite He.
-      pose proof (estep_merge e a b) as M.
-      destruct (estep e a false) as [e' [o1|x]]; destruct (estep e (a ++ b) true) as [e2 r2];
+      pose proof (estep_merge e a b fin) as M.
+      destruct (estep e a false) as [e' [o1|x]]; destruct (estep e (a ++ b) fin) as [e2 r2];
         cbn [fst snd] in *; unfold Codec.enc_step; cbn [es_enc]; rewrite M;
         try reflexivity.
-      destruct (estep e' b true); reflexivity.
+      destruct (estep e' b fin); reflexivity.
     - rewrite !(enc_step_unfold st _ _ He). rewrite app_assoc.
       destruct (es_encoding st) as [enc|] eqn:Henc.
       + destruct (fixencoding (es_buf st ++ a) (nosig enc) false) as [ni|] eqn:Hf.
-        * rewrite (fix_monotone _ b _ true _ Hf). apply enc_go_merge. intros Hs.
+        * rewrite (fix_monotone _ b _ fin _ Hf). apply enc_go_merge. intros Hs.
           assert (Hn : nosig enc = utf8) by (unfold nosig; now rewrite Hs).
           rewrite Hn in Hf. exists ni. split.
           -- eapply fix_idem; [apply not_quote_utf8|exact Hf].
-          -- eapply fix_idem; [apply not_quote_utf8|]. apply (fix_monotone _ b _ true _ Hf).
+          -- eapply fix_idem; [apply not_quote_utf8|]. apply (fix_monotone _ b _ fin _ Hf).
         * cbn [fst snd seqr]. rewrite enc_step_unfold by reflexivity. cbn [es_encoding es_buf].
-          destruct (fixencoding ((es_buf st ++ a) ++ b) (nosig enc) true) as [ni|]; [|reflexivity].
+          destruct (fixencoding ((es_buf st ++ a) ++ b) (nosig enc) fin) as [ni|]; [|reflexivity].
           rewrite (enc_go_buf (es_buf st ++ a) (es_buf st)).
-          destruct (snd (enc_go (es_buf st) enc ni true)); reflexivity.
+          destruct (snd (enc_go (es_buf st) enc ni fin)); reflexivity.
       + destruct (detectencoding_unicode (es_buf st ++ a) false) as [[enc|] x] eqn:Hd.
-        * rewrite (detectu_monotone _ b true _ _ Hd). cbn [fst].
+        * rewrite (detectu_monotone _ b fin _ _ Hd). cbn [fst].
           (* sig: the whole prefix is fixed with final=True at detection time *)
           assert (Hfx : fixencoding (es_buf st ++ a) utf8 false = fixencoding (es_buf st ++ a) utf8 true)
             by (eapply detectu_some_fix; rewrite Hd; reflexivity).
@@ -476,7 +476,8 @@ Section Facts.
           destruct (fix_final_some (es_buf st ++ a) utf8) as [r Hr]. exists r. split; [exact Hr|].
           rewrite Hr in Hfx. apply (fix_monotone _ b _ true _ Hfx).
         * cbn [fst snd seqr]. rewrite enc_step_unfold by reflexivity. cbn [es_encoding es_buf].
-          destruct (fst (detectencoding_unicode ((es_buf st ++ a) ++ b) true)) as [enc|];
+          destruct (fst (detectencoding_unicode ((es_buf st ++ a) ++ b) fin)) as [enc|];
+            [|destruct fin; [|reflexivity]];
             rewrite (enc_go_buf (es_buf st ++ a) (es_buf st));
             match goal with |- _ = match ?x with _ => _ end => destruct x end; reflexivity.
   Qed.
@@ -515,6 +516,60 @@ Section Facts.
   Theorem incenc_chunking_thm enc chunks last :
     enc_feed (enc_init est enc) chunks last = encode eshot (concat chunks ++ last) enc.
   Proof. rewrite enc_feed_merge. apply enc_single. Qed.
+
+
+  (* ---------------------------------------------------------------- StreamWriter: writes without a final call *)
+  Lemma sw_chunking_thm r : forall st c,
+    collapse (enc_trace_nf est einit estep st (c :: r)) = snd (enc_step st (c ++ concat r) false).
+  Proof.
+    induction r as [|c2 r IH]; intros st c.
+    - cbn [Codec.enc_trace_nf concat]. rewrite app_nil_r.
+      destruct (enc_step st c false) as [st' [o|e]]; cbn [collapse snd]; [now rewrite app_nil_r|reflexivity].
+    - cbn [concat]. rewrite enc_merge. specialize (IH (fst (enc_step st c false)) c2).
+      cbn [Codec.enc_trace_nf] in *.
+      destruct (enc_step st c false) as [st' [o|e]]; cbn [fst snd seqr collapse] in *; [|reflexivity].
+      now rewrite IH.
+  Qed.
+
+  (* the header is decided on the text t without knowing that it is complete *)
+  Definition decided (enc : option str) (t : str) : Prop :=
+    match enc with
+    | Some e => fixencoding t (nosig e) false <> None
+    | None => fst (detectencoding_unicode t false) <> None
+    end.
+
+  Lemma enc_go_final bufold enc x :
+    (forall e y, snd (estep e y false) = snd (estep e y true)) ->
+    snd (enc_go bufold enc x false) = snd (enc_go bufold enc x true).
+  Proof.
+    intros Hf. unfold enc_go. destruct (is_css enc); [reflexivity|]. destruct (einit enc); [|reflexivity].
+    destruct (if is_sig enc then fixencoding x utf8 true else Some x); [|reflexivity]. cbn [snd]. apply Hf.
+  Qed.
+
+  (* once the header is decided a StreamWriter has written exactly what the one-shot encoder returns *)
+  Theorem sw_decided_thm enc t :
+    (forall e y, snd (estep e y false) = snd (estep e y true)) ->     (* encoders ignore `final` *)
+    decided enc t ->
+    snd (enc_step (enc_init est enc) t false) = encode eshot t enc.
+  Proof.
+    intros Hf Hd. rewrite <- enc_single. rewrite !enc_step_unfold by reflexivity.
+    unfold enc_init. cbn [es_encoding es_buf app]. destruct enc as [e|]; cbn [decided] in Hd.
+    - destruct (fixencoding t (nosig e) false) as [r|] eqn:Hr; [|congruence].
+      pose proof (fix_monotone _ [] _ true _ Hr) as Hr'. rewrite !app_nil_r in Hr'. rewrite Hr'.
+      now apply enc_go_final.
+    - destruct (detectencoding_unicode t false) as [[e|] x] eqn:Hu; cbn [fst] in *; [|congruence].
+      pose proof (detectu_monotone _ [] true _ _ Hu) as Hu'. rewrite app_nil_r in Hu'. rewrite Hu'. cbn [fst].
+      now apply enc_go_final.
+  Qed.
+
+  (* ... and before that it has written nothing (the text is kept in its buffer) *)
+  Theorem sw_undecided_thm enc t : ~ decided enc t -> snd (enc_step (enc_init est enc) t false) = Ok [].
+  Proof.
+    intros Hd. rewrite enc_step_unfold by reflexivity. unfold enc_init. cbn [es_encoding es_buf app].
+    destruct enc as [e|]; cbn [decided] in Hd.
+    - destruct (fixencoding t (nosig e) false); [exfalso; apply Hd; discriminate|reflexivity].
+    - destruct (fst (detectencoding_unicode t false)); [exfalso; apply Hd; discriminate|reflexivity].
+  Qed.
 
   (* ---------------------------------------------------------------- decode after encode *)
   Theorem decode_encode_thm e t b :
